@@ -205,3 +205,38 @@ LEVEL_TEXT.update({
 })
 
 NOT_APPLICABLE = {}
+
+# ---- second build round: the manifest texts of the properties whose theorem coverage grew
+LEVEL_TEXT["C03"].update({
+    "text": LEVEL_TEXT["C03"]["text"] + " Added: for triangles (all), simple quadrilaterals (all, incl. vertical edges), strictly convex and all simple x-monotone n-gons with distinct abscissae the number of triangles (n-2), corners = input vertices, non-degeneracy and exact total area |shoelace| of the model's output are theorems (C04Triangle, C04Quad, C04QuadV, C04Convex, C04Monotone; full path through set-up, event queue, all handlers, back-chain fans).",
+    "note": "Trusts: Lean kernel, heap/list models of Rc/BTreeSet/BTreeMap (ghost monitors + C04Order/C15Monitor theorems say when the list model stands for the B-tree and when no panic can occur), harness oracle. Pairwise disjointness of the triangles is not proved for n > 4; for inputs outside the proved classes the tiling clauses are decided by the exact oracle.",
+    "technique": "Lean 4 full-path theorems (symbolic execution + induction over the event queue) on a heap-explicit sweep model + exhaustive small-lattice enumeration with exact oracle"})
+LEVEL_TEXT["C04"].update({
+    "text": "Acceptance theorems on the sweep model in exact arithmetic, full path (validation, set-up, event queue, Start/Bend/End handlers, back-chain split/merge/fans), each with the ghost order-consistency flag true: every non-degenerate triangle; every simple quadrilateral (convex, reflex Bend, improper Start, merging End; equal abscissae and vertical edges included); every strictly convex x-monotone n-gon and every simple x-monotone n-gon with distinct abscissae (n arbitrary: induction over the event queue, polygon-independent fan lemma). C04Ties: the comparator's tie rules (incl. the one added by repair 745c06b) agree with the geometric order; C04Order: while the ghost flag holds, any comparison-based search tree returns what the model's list scan returns. Outside these classes: exhaustive enumeration of all 17.9M vertex sequences up to 6 vertices on the 4x4 lattice, structured families with holes/islands under symmetries, stacked bands (up to 20 active edges), exact affine images (aspect ratios to 2^1000), mixed-scale pairs, 40 000-vertex polygons; the model at Float and XQ reproduces every Ok/Err.",
+    "note": "The general sweep invariant (arbitrary nesting, several polygons) is not proved. Genuine defects repaired by fix commits 18aefee and 745c06b; overflow of coordinate differences / gradients recorded as known findings.",
+    "technique": "Lean 4 acceptance theorems by symbolic execution and induction over the event queue + exhaustive enumeration against the Lean-modelled sweep"})
+LEVEL_TEXT["C15"].update({
+    "text": LEVEL_TEXT["C15"]["text"] + " Added (all inputs): the model never fails with a heap-encoding panic, never reaches unreachable!(), never indexes a missing registered edge (C15Heap); a RefCell borrow panic can only arise from a pass that starts with a self-loop or coinciding partners among the registered edges (C15Borrow), a condition monitored by the driver on every compared input (C15Monitor: while it holds, no panic of any kind). Large polygons (to 40 000 vertices, 120 000 in the thorough tier) run in child processes on a 2 MiB stack.",
+    "note": "Genuine defects repaired by fix commits d71cca1 and 8c7e16d. The borrow-panic exclusion is conditional on the monitored link condition (never observed to fail); stack depth and allocation are executed, not modelled.",
+    "technique": "Lean 4 invariant proofs (Hoare calculus over the heap-explicit sweep model) + executable ghost monitor + exhaustive panic search with model correspondence"})
+LEVEL_TEXT["C16"].update({
+    "text": LEVEL_TEXT["C16"]["text"] + " Added, full path on the model: every self-intersecting quadrilateral with distinct abscissae is rejected with Overlap at its second event (C16Quad.bowtie_rejected_at); every polygon made of two x-monotone chains (n arbitrary) whose chains are not simple is rejected with Overlap(Bend, p), with the exact Bend (C16Monotone.crossing_rejected, crossing_rejected_at_*).",
+    "note": "Genuine defects repaired by fix commits f406d59 and 18aefee. Outside the proved classes global rejection is enumeration, not a theorem.",
+    "technique": "Lean 4 full-path rejection theorems on the sweep model + exhaustive enumeration with exact oracle"})
+LEVEL_TEXT["C07"].update({
+    "text": LEVEL_TEXT["C07"]["text"] + " Added (C07Accuracy): for polynomial f and c (resp. g) evaluated through the generated AD operations with integrand of degree <= 31, each piece's reported value is within the table defect of the TRUE real integral of f dg over the piece (Mathlib interval integral), 0 <= e < tol, and the reported values of the pieces of [a,b] add up to the integral over [a,b] within the sum of the bounds, for any number of bisections.",
+    "note": "Trusts: Lean kernel, Mathlib, Brent/BTreeSet models, harness. Outside the polynomial class 'within the reported estimates' is explored.",
+    "technique": "Lean 4 / Mathlib end-to-end accuracy theorem on the polynomial class + structural theorems + bit-exact correspondence + exact-antiderivative oracle"})
+LEVEL_TEXT["C09"].update({
+    "text": LEVEL_TEXT["C09"]["text"] + " Added (C09Accuracy): on the exact class a successful 2-D or triangle result is within an explicit bound of the exact iterated integral for ANY number of outer and inner bisections (for triangles: any term list of total degree <= 30, any triangle), and first-panel success for degree <= 19.",
+    "note": "The iterated integral is not identified with a Mathlib area integral. Outside the exact class accuracy is explored.",
+    "technique": "Lean 4 / Mathlib accuracy theorems over the quadrature model + trace-replay correspondence"})
+LEVEL_TEXT["C11"].update({
+    "text": LEVEL_TEXT["C11"]["text"] + " Added (C11Roots): interior piece boundaries = split points; for polynomial data each lies within 2*tol of a true real zero of g' in the same grid cell (IVT on the final Brent bracket); kernel-checked witness that two sign changes in one cell are missed.",
+    "technique": "Lean 4 / Mathlib theorems (Brent invariants + intermediate value theorem) + bit-exact correspondence + prescribed-root oracle"})
+LEVEL_TEXT["C13"].update({
+    "text": LEVEL_TEXT["C13"]["text"] + " Added: RS piece boundaries within 4*tol of a true zero of f' or g' (C11Roots); reported values within the table defect of the true Riemann-Stieltjes integral on the polynomial class (C07Accuracy).",
+    "technique": "Lean 4 / Mathlib theorems + bit-exact correspondence + prescribed-turning-point oracle"})
+LEVEL_TEXT["C01"].update({
+    "text": LEVEL_TEXT["C01"]["text"] + " Added (C01Success): for degree <= 19 and tol above twice the defect bound the routine succeeds on the first panel.",
+    "note": "Trusts: Lean kernel (GMP arithmetic in decide +kernel), Mathlib, translator T1, harness. Rounding, the success clause for degree 20..31 and the transcendental class are explored only."})
